@@ -55,6 +55,10 @@ class ExprMixin:
             return self.wrap_resolved(r, frame)
         if name in BUILTINS:
             return FuncV("ext", dotted="builtins." + name)
+        if name in ("__name__", "__file__", "__package__", "__doc__"):
+            return StrV(frame.module.name) if name == "__name__" else Opaque("module " + name, ambient=False)
+        if name in ("staticmethod", "classmethod", "property"):
+            return FuncV("ext", dotted="builtins." + name)
         if name in BUILTIN_EXC:
             return FuncV("ext", dotted="builtins." + name)
         fr = frame
@@ -581,6 +585,10 @@ class ExprMixin:
             if attr == "x" and False:
                 pass
         if isinstance(base, Opaque):
+            if base.desc == "logger" or base.desc.startswith("logger."):
+                if attr in ("isEnabledFor", "getEffectiveLevel", "level", "handlers", "disabled"):
+                    raise Unmodelled("behaviour that depends on the logging configuration at %s" % frame.loc(node))
+                return FuncV("ext", dotted="logging." + attr)    # logger.debug / info / warning ...: diagnostics, no value
             return Opaque(base.desc + "." + attr, ambient=base.ambient)
         if isinstance(base, Num):
             sa = base.r.single_atom()
